@@ -30,7 +30,10 @@ def make_frame(rows, rng, index_kind):
     return df
 
 
-def run_impl(rows, reference, index_kind='range', rng=None):
+SHOWN = [0]
+
+
+def run_impl(rows, reference, index_kind='range', rng=None, show=None):
     from zepid import RiskDifference
     df = make_frame(rows, rng, index_kind)
     snap = df.copy(deep=True)
@@ -39,12 +42,21 @@ def run_impl(rows, reference, index_kind='range', rng=None):
         rd.fit(df, exposure='e', outcome='y')
     except ValueError as e:
         return {'error': 'ValueError'}
+    SHOWN[0] += 1
+    if show is None:
+        show = SHOWN[0] if SHOWN[0] % 2 == 0 else 0
+    if show:
+        # the documented display call between fit() and reading the results must not alter them
+        import io
+        import contextlib
+        with contextlib.redirect_stdout(io.StringIO()):
+            rd.summary(decimal=[0, 2, 3][show // 2 % 3])
     res = rd.results
     nonref = [i for i in res.index if not str(i).startswith('Ref:')][0]
     out = {'lower': float(res.loc[nonref, 'LowerBound']), 'upper': float(res.loc[nonref, 'UpperBound']),
            'rd': float(res.loc[nonref, 'RiskDifference']),
            'a': rd._a_list[0], 'b': rd._b_list[0], 'c': rd._c, 'd': rd._d, 'n': rd.n,
-           'ri': float(rd.risks[1]), 'r0': float(rd.risks[0]), 'mutated': not snap.equals(df)}
+           'ri': float(rd.risks[1]), 'r0': float(rd.risks[0]), 'mutated': not snap.equals(df), 'show': show}
     return out
 
 
@@ -86,7 +98,8 @@ def gen_cases(ctx):
 def check_cases(ctx, cases):
     impl = []
     for cs in cases:
-        impl.append(run_impl(cs['rows'], cs['reference'], cs['index']))
+        impl.append(run_impl(cs['rows'], cs['reference'], cs['index'], show=cs.get('show')))
+        cs['show'] = impl[-1].get('show', 0)
     side = None
     if ctx.gen.get('rdbounds', {}).get('ok'):
         side = {s['name']: s for s in json.load(open(ctx_side()))['rdbounds']}
